@@ -18,7 +18,12 @@ DEFS = r"""
 #define m_donors_count(i) m_donors_count_[FSL_IDX1(i, gsize)]
 #define m_dfs_indices(i) m_dfs_indices_[FSL_IDX1(i, gsize)]
 #define m_bfs_indices(i) m_bfs_indices_[FSL_IDX1(i, gsize)]
+/* the other tables of the implementation object in scope (read-only inputs of these functions; today's bodies do not read them): arbitrary values,
+ * owned by the harness -- a changed body that consults them is judged on ALL their values (weights may be 0 for a real link: slope^p underflow) */
+#define m_receivers_weight(i, j) ORD_WEIGHT[FSL_IDX2(i, j, gsize, REC_W)]
+#define m_receivers_distance(i, j) ORD_DIST[FSL_IDX2(i, j, gsize, REC_W)]
 """
+TABLES_PRE = "#ifndef FSL_ORD_TABLES\n#define FSL_ORD_TABLES\nconst double *ORD_WEIGHT, *ORD_DIST;\n#endif\n"
 PARAMS = ("size_t gsize, const size_t *m_receivers_, const size_t *m_receivers_count_, const size_t *m_donors_, const size_t *m_donors_count_, "
           "size_t *m_dfs_indices_, size_t *m_bfs_indices_, size_t *m_bfs_levels_, size_t *m_bfs_levels_n")
 ARGS = "gsize, rec, rcnt, don, dcnt, dfs, bfs, lev, &lev_n"
@@ -41,12 +46,12 @@ STACK_RULES = [
 dfs_bottomup = Unit(
     name="dfs_bottomup", file=IMPL_H,
     anchor=r"void flow_graph_impl<G, S, flow_graph_fixed_array_tag>::compute_dfs_indices_bottomup\(\)",
-    sig="void dfs_bottomup(%s)" % PARAMS, pre=STACK_MODEL, defs=DEFS, rules=STACK_RULES,
+    sig="void dfs_bottomup(%s)" % PARAMS, pre=TABLES_PRE + STACK_MODEL, defs=DEFS, rules=STACK_RULES,
 )
 dfs_topdown = Unit(
     name="dfs_topdown", file=IMPL_H,
     anchor=r"void flow_graph_impl<G, S, flow_graph_fixed_array_tag>::compute_dfs_indices_topdown\(\)",
-    sig="void dfs_topdown(%s)" % PARAMS, pre="#ifndef STK_CAP\n" + STACK_MODEL + "#endif\n", defs=DEFS,
+    sig="void dfs_topdown(%s)" % PARAMS, pre=TABLES_PRE + "#ifndef STK_CAP\n" + STACK_MODEL + "#endif\n", defs=DEFS,
     rules=STACK_RULES + [
         R(r"std::vector<size_type> visited_count\(gsize, 0\);", "size_t vc_[N_B]; for (int z_ = 0; z_ < N_B; ++z_) vc_[z_] = 0;", 1),
         V(r"\bvisited_count\[([^\[\]]*)\]", r"vc_[FSL_IDX1(\1, gsize)]"),
@@ -57,7 +62,7 @@ dfs_topdown = Unit(
 bfs_bottomup = Unit(
     name="bfs_bottomup", file=IMPL_H,
     anchor=r"void flow_graph_impl<G, S, flow_graph_fixed_array_tag>::compute_bfs_indices_bottomup\(\)",
-    sig="void bfs_bottomup(%s)" % PARAMS, defs=DEFS,
+    sig="void bfs_bottomup(%s)" % PARAMS, pre=TABLES_PRE, defs=DEFS,
     rules=[
         R(r"std::vector<std::uint8_t> visited\(m_grid\.size\(\), std::uint8_t\(0\)\);", "uint8_t visited_[N_B]; for (int z_ = 0; z_ < N_B; ++z_) visited_[z_] = 0;", 1),
         R(r"std::vector<size_type> levels\(m_grid\.size\(\) \+ 1, 0\);", "size_t levels_[N_B + 1]; for (int z_ = 0; z_ <= N_B; ++z_) levels_[z_] = 0;", 1),
@@ -80,6 +85,8 @@ void h_%(fn)s(void)
     __CPROVER_assume(1 <= gsize && gsize <= N_B);
     size_t rec[N_B * REC_W], rcnt[N_B], don[N_B * DON_W], dcnt[N_B], dfs[N_B], bfs[N_B], lev[N_B + 1], lev_n = 0, rank[N_B];
     for (int i = 0; i < N_B; ++i) { dcnt[i] = 0; rank[i] = nondet_size_t(); dfs[i] = nondet_size_t(); bfs[i] = nondet_size_t(); }
+    double weight_[N_B * REC_W], dist_[N_B * REC_W];   /* arbitrary (uninitialised locals are nondeterministic) */
+    ORD_WEIGHT = weight_; ORD_DIST = dist_;
     for (int i = 0; i < N_B; ++i)
     {
         rcnt[i] = nondet_size_t();
